@@ -14,6 +14,7 @@
 package main
 
 import (
+	"encoding/hex"
 	"context"
 	"encoding/json"
 	"flag"
@@ -677,6 +678,182 @@ func fsMode(seed uint64, base string, nmods, nconc, copies int, out *c.Out) {
 	}
 }
 
+// manyMode: ONE process compiles k DIFFERENT modules from g goroutines into one cache directory; the directory must
+// equal, file by file and byte by byte, the one a sequential compilation of the same modules produces (the entry of a
+// module is a function of the module and the settings alone), and a fresh runtime over it must compute every result.
+type ManyDiff struct {
+	Mod      int    `json:"mod"`
+	Name     string `json:"name"`
+	RefLen   int    `json:"ref_len"`
+	GotLen   int    `json:"got_len"` // -1: no such file
+	FirstAt  int    `json:"first_diff_at"`
+	EqualsTo int    `json:"equals_entry_of_mod"` // the module whose reference entry these bytes are, -1 if none
+}
+
+type ManyEvent struct {
+	Kind     string     `json:"kind"`
+	Round    int        `json:"round"`
+	Mods     int        `json:"mods"`
+	Workers  int        `json:"workers"`
+	RefFiles int        `json:"ref_files"`
+	GotFiles int        `json:"got_files"`
+	Extra    []string   `json:"extra_files"`
+	Diffs    []ManyDiff `json:"diffs"`
+	Wrong    [][]int64  `json:"wrong_results"` // [mod, want, got] (got -1: error) from a fresh runtime over the directory
+	Errs     []string   `json:"errs"`
+	WasmHex  []string   `json:"wasm_hex,omitempty"` // the modules of the first difference
+}
+
+func manyMode(seed uint64, base string, k, g, rounds int, out *c.Out) {
+	ctx := context.Background()
+	for round := 0; round < rounds; round++ {
+		ev := ManyEvent{Kind: "many", Round: round, Mods: k, Workers: g, Extra: []string{}, Diffs: []ManyDiff{}, Wrong: [][]int64{}, Errs: []string{}}
+		rs := seed*131 + uint64(round)
+		bins := make([][]byte, k)
+		args, wants := make([]uint32, k), make([]uint32, k)
+		for m := 0; m < k; m++ {
+			bins[m], args[m], wants[m], _ = buildMod(rs, 1+m) // every module has functions; every third one is large
+		}
+		compileAll := func(dir string, workers int) {
+			cache, err := wazero.NewCompilationCacheWithDir(dir)
+			if err != nil {
+				panic(err)
+			}
+			r := wazero.NewRuntimeWithConfig(ctx, wazero.NewRuntimeConfigCompiler().WithCompilationCache(cache))
+			var wg sync.WaitGroup
+			var mu sync.Mutex
+			next := 0
+			for w := 0; w < workers; w++ {
+				wg.Add(1)
+				go func() {
+					defer wg.Done()
+					for {
+						mu.Lock()
+						m := next
+						next++
+						mu.Unlock()
+						if m >= k {
+							return
+						}
+						if _, err := r.CompileModule(ctx, bins[m]); err != nil {
+							mu.Lock()
+							ev.Errs = append(ev.Errs, fmt.Sprintf("compile %d: %v", m, err))
+							mu.Unlock()
+						}
+					}
+				}()
+			}
+			wg.Wait()
+			r.Close(ctx)
+		}
+		refDir, gotDir := filepath.Join(base, fmt.Sprintf("many%03d_ref", round)), filepath.Join(base, fmt.Sprintf("many%03d_got", round))
+		must := func(err error) {
+			if err != nil {
+				panic(err)
+			}
+		}
+		must(os.MkdirAll(refDir, 0o700))
+		must(os.MkdirAll(gotDir, 0o700))
+		// the reference also says which file belongs to which module: one module at a time
+		nameOf := make([]string, k)
+		refData := map[string][]byte{}
+		{
+			cache, err := wazero.NewCompilationCacheWithDir(refDir)
+			must(err)
+			r := wazero.NewRuntimeWithConfig(ctx, wazero.NewRuntimeConfigCompiler().WithCompilationCache(cache))
+			seen := map[string]bool{}
+			for m := 0; m < k; m++ {
+				if _, err := r.CompileModule(ctx, bins[m]); err != nil {
+					ev.Errs = append(ev.Errs, fmt.Sprintf("reference compile %d: %v", m, err))
+				}
+				for _, f := range listDir(refDir) {
+					if !seen[f.Name] {
+						seen[f.Name] = true
+						nameOf[m] = f.Name
+						refData[f.Name] = f.Data
+					}
+				}
+			}
+			r.Close(ctx)
+		}
+		compileAll(gotDir, g)
+		got := map[string][]byte{}
+		for _, f := range listDir(gotDir) {
+			got[f.Name] = f.Data
+			if _, ok := refData[f.Name]; !ok {
+				ev.Extra = append(ev.Extra, f.Name)
+			}
+		}
+		ev.RefFiles, ev.GotFiles = len(refData), len(got)
+		for m := 0; m < k; m++ {
+			ref := refData[nameOf[m]]
+			g, ok := got[nameOf[m]]
+			if ok && string(g) == string(ref) {
+				continue
+			}
+			d := ManyDiff{Mod: m, Name: nameOf[m], RefLen: len(ref), GotLen: len(g), EqualsTo: -1}
+			if !ok {
+				d.GotLen = -1
+			}
+			for d.FirstAt < len(ref) && d.FirstAt < len(g) && ref[d.FirstAt] == g[d.FirstAt] {
+				d.FirstAt++
+			}
+			for m2 := 0; m2 < k; m2++ {
+				if ok && string(refData[nameOf[m2]]) == string(g) {
+					d.EqualsTo = m2
+				}
+			}
+			if len(ev.Diffs) == 0 {
+				ev.WasmHex = []string{hex.EncodeToString(bins[m])}
+				if d.EqualsTo >= 0 {
+					ev.WasmHex = append(ev.WasmHex, hex.EncodeToString(bins[d.EqualsTo]))
+				}
+			}
+			if len(ev.Diffs) < 8 {
+				ev.Diffs = append(ev.Diffs, d)
+			}
+		}
+		// a later runtime over the concurrently written directory
+		{
+			cache, err := wazero.NewCompilationCacheWithDir(gotDir)
+			must(err)
+			r := wazero.NewRuntimeWithConfig(ctx, wazero.NewRuntimeConfigCompiler().WithCompilationCache(cache))
+			for m := 0; m < k; m++ {
+				res := int64(-1)
+				func() {
+					defer func() {
+						if x := recover(); x != nil {
+							ev.Errs = append(ev.Errs, fmt.Sprintf("later run of %d: PANIC %v", m, x))
+						}
+					}()
+					cm, err := r.CompileModule(ctx, bins[m])
+					if err != nil {
+						ev.Errs = append(ev.Errs, fmt.Sprintf("later compile %d: %v", m, err))
+						return
+					}
+					mod, err := r.InstantiateModule(ctx, cm, wazero.NewModuleConfig().WithName(""))
+					if err != nil {
+						return
+					}
+					o, err := mod.ExportedFunction("f").Call(ctx, uint64(args[m]))
+					if err == nil {
+						res = int64(uint32(o[0]))
+					}
+					mod.Close(ctx)
+				}()
+				if res != int64(wants[m]) && len(ev.Wrong) < 8 {
+					ev.Wrong = append(ev.Wrong, []int64{int64(m), int64(wants[m]), res})
+				}
+			}
+			r.Close(ctx)
+		}
+		os.RemoveAll(refDir)
+		os.RemoveAll(gotDir)
+		out.Emit(ev)
+		out.Flush()
+	}
+}
+
 func main() {
 	mode := flag.String("mode", "codec", "")
 	seed := flag.Uint64("seed", 1, "")
@@ -704,6 +881,10 @@ func main() {
 				out.Flush()
 			}
 		}
+	case "many":
+		out := c.NewOut()
+		manyMode(*seed, *dir, *mods, *conc, *n, out)
+		out.Flush()
 	case "fs":
 		out := c.NewOut()
 		fsMode(*seed, *dir, *mods, *conc, *copies, out)
